@@ -176,12 +176,19 @@ func runCheckFinality(ctx *action.Context, tx action.RawTx) (bool, action.Respon
 
 	//Handle when tracker has 67% No votes
 	if tracker.Failed() {
-		if tracker.Type == trackerlib.ProcessTypeLock {
+		if tracker.Type == trackerlib.ProcessTypeLock || tracker.Type == trackerlib.ProcessTypeLockERC {
 			err := failedLock(ctx, tracker, *f)
 			if err != nil {
 				return false, action.Response{Log: errors.Wrap(err, "unable to finalize lock TX").Error()}
 			}
 			return true, action.Response{Log: "Lock Tracker Failed"}
+		}
+		if tracker.Type == trackerlib.ProcessTypeRedeemERC {
+			err := refundERC20Tokens(ctx, tracker, *f)
+			if err != nil {
+				return false, action.Response{Log: errors.Wrap(err, "unable to refund tokens").Error()}
+			}
+			return true, action.Response{Log: "Redeem ERC Tracker Failed"}
 		}
 		if tracker.Type == trackerlib.ProcessTypeRedeem {
 			err := refundTokens(ctx, tracker, *f)
@@ -255,6 +262,44 @@ func refundTokens(ctx *action.Context, tracker *trackerlib.Tracker, oltTx Report
 	err = ctx.Balances.AddToAddress(ethSupply, oEthRefundCoin)
 	if err != nil {
 		return errors.New("Unable to update total Eth supply")
+	}
+	return nil
+}
+
+//Refund the tokens an ERC20 redeem took from its owner if Validators could not sign
+func refundERC20Tokens(ctx *action.Context, tracker *trackerlib.Tracker, oltTx ReportFinality) error {
+	ctx.Logger.Info("Failing Tracker  [ Token Refund ]| Process Type : ", tracker.Type.String())
+	tracker.State = trackerlib.Failed
+	err := ctx.ETHTrackers.WithPrefixType(trackerlib.PrefixOngoing).Set(tracker)
+	if err != nil {
+		return errors.Wrap(err, "unable to Fail tracker")
+	}
+	ethOpt, err := ctx.GovernanceStore.GetETHChainDriverOption()
+	if err != nil {
+		return gov.ErrGetEthOptions
+	}
+	// the amount and the token the redeem debited (runERC20Reddem)
+	req, err := ethereum.ParseERC20RedeemParams(tracker.SignedETHTx, ethOpt.ERCContractABI)
+	if err != nil {
+		return errors.Wrap(action.ErrInvalidExtTx, err.Error())
+	}
+	token, err := ethereum.ParseERC20RedeemToken(tracker.SignedETHTx, ethOpt.TokenList, ethOpt.ERCContractABI)
+	if err != nil {
+		return errors.Wrap(action.ErrInvalidExtTx, err.Error())
+	}
+	c, ok := ctx.Currencies.GetCurrencyByName(token.TokName)
+	if !ok {
+		return errors.New("Token not registered")
+	}
+	refundCoin := c.NewCoinFromAmount(*balance.NewAmountFromBigInt(req.Amount))
+	err = ctx.Balances.AddToAddress(tracker.ProcessOwner, refundCoin)
+	if err != nil {
+		ctx.Logger.Error(err)
+		return errors.Errorf("Unable to refund token : %s", token.TokName)
+	}
+	err = ctx.Balances.AddToAddress(keys.Address(ethOpt.TotalSupplyAddr), refundCoin)
+	if err != nil {
+		return errors.Errorf("Unable to update totalSupply for token : %s", token.TokName)
 	}
 	return nil
 }
